@@ -53,7 +53,7 @@ def build(side, version, cl, te, body, trailer_hdr, trailers):
 	if trailer_hdr is not None:
 		lines.append(b'Trailer: ' + trailer_hdr)
 	head = b'\r\n'.join(lines) + b'\r\n\r\n'
-	chunked = b''.join(b'%x\r\n%s\r\n' % (len(p), p) for p in body if p) + b'0\r\n' + b''.join(n + b': ' + v + b'\r\n' for n, v in trailers) + b'\r\n'
+	chunked = b''.join(b'%x\r\n%s\r\n' % (len(p), p) for p in body if p) + b'0\r\n' + b''.join((n + b': ' + v if n else v) + b'\r\n' for n, v in trailers) + b'\r\n'      # a pair without name is a raw (continuation) line
 	return head, b''.join(body), chunked
 
 
@@ -69,6 +69,7 @@ def cases(rng, tier):
 					(b'Content-Length', ((b'Content-Length', b'99'),)), (b'X-T', ((b'Content-Length', b'99'),)), (b'transfer-encoding', ((b'Transfer-Encoding', b'chunked'),)),
 					(b'Trailer', ((b'Trailer', b'X'),)), (b'X-T, X-U', ((b'x-u', b'1'), (b'X-T', b'2'), (b'x-t', b'3'))), (b'X-T', ((b'X-T', b'v'), (b'Host', b'evil'))), (b'Host', ((b'Host', b'evil'),)),
 					# names with a percent sign (a token character; messages are formatted with %), names of fields the message already has
+					(b'X-T', ((b'X-T', b'a'), (b'Evil', b'x'), (b'', b' y'))), (b'X-T, X-U', ((b'X-T', b'a'), (b'X-U', b'x'), (b'', b'\ty'))), (b'X-T', ((b'X-T', b'a'), (b'', b' b'), (b'Evil', b'x'))),
 					(None, ((b'X-%s', b'v'),)), (b'X-T', ((b'X-T', b'v'), (b'X-Load-%', b'1'))), (b'%x', ((b'%x', b'1'),)), (None, ((b'Host', b'evil'),)), (b'X-T', ((b'host', b'evil'),)), (None, ((b'Transfer-Encoding', b'chunked'),))]
 				for cl in cls:
 					for te in tes:
@@ -180,7 +181,7 @@ def oracle(case):
 			return {'what': '; '.join(bad), 'stream': s.hex(), 'headers': repr(sorted(h.items()))[:300], 'finding': fid}
 	# an unannounced or forbidden trailer field must make the message fail with 400
 	if te is not None and te.strip().lower() == b'chunked' and version == b'1.1' and tr and not err:
-		names = [n.lower() for n, v in tr]
+		names = [n.lower() for n, v in tr if n]      # (a pair without name is a continuation line of the field before it)
 		if any(n not in announced or n in FORBIDDEN for n in names) and len(delivered) >= 1 + (1 if mode // 10 else 0) and cl_ok(cl):
 			return {'what': 'message with an unannounced / forbidden trailer field was delivered', 'stream': s.hex(), 'finding': None}
 	return None
